@@ -664,7 +664,7 @@ fn observe(dir: &Path, side: &serde_json::Value, save_to: &Path) -> String {
             let mut t = vec![];
             walk(save_to, Path::new(""), &mut t);
             for (p, n, h) in t {
-                let _ = writeln!(o, "TREE {} {} {:016x}", p, n, h);
+                let _ = writeln!(o, "TREE {} {:016x} {}", n, h, p);
             }
         }
     }
